@@ -70,7 +70,11 @@ def bases(tier):
     from mc.props import c19
     for i, params in enumerate((dict(keywords=(2, 3), metadataProvider=dict(), associatedParty=dict(uid="two"), other="text",
                                      maint_desc="para", qc_desc="own", extent_desc="markdown"),
-                                dict(keywords=(1, 1, 1), abstract=("split", 20), rights="para", dt=dict(rd="direct")))):
+                                dict(keywords=(1, 1, 1), abstract=("split", 20), rights="para", dt=dict(rd="direct")),
+                                dict(creator=dict(uid="nodir", email="empty", name="emptygiven"), contact=dict(uid="empty", email="none"),
+                                     personnel=dict(uid="other"), abstract=("inline", 3), keywords=(), dt=dict(desc="empty", size="empty",
+                                     auth="absent", nrec="empty", own_methods=True, own_coverage=True), other="empty",
+                                     method_desc="inline", project_abstract=True, related_project=True))):
         out.append((f"rich:{i}", gtree.assign_ids(from_listspec(c19.build(params))), 2))
     # a document with a default namespace declared on an inner element (nsmap key None), as stmml unit lists have
     doc = ('<eml:eml xmlns:eml="https://eml.ecoinformatics.org/eml-2.2.0" packageId="p.1.1" system="s"><dataset><title>t</title></dataset>'
